@@ -92,9 +92,9 @@ def model_phase(rep):
     quick = rep.tier == 'quick'
     exh = ['FamCore', 'FamMut', 'FamMut3', 'FamCor', 'FamRank3', 'FamGen', 'FamPerm', 'FamSummed']
     if not quick:
-        exh = ['FamCore0', 'FamMut2', 'FamMut3', 'FamCor2', 'FamRank3', 'FamGen', 'FamPerm2', 'FamSummed', 'FamThree', 'FamThreeV']
-    sim = ['FamSimV', 'FamSimW', 'FamSimM', 'FamSimC', 'FamSimVO']
-    nsim = 150 if quick else 8000
+        exh = ['FamCore0', 'FamMut2', 'FamMut3', 'FamCor2', 'FamRank3', 'FamGen', 'FamPerm2', 'FamSummed3', 'FamThree', 'FamThreeV']
+    sim = ['FamSimV', 'FamSimM', 'FamSimC', 'FamSimVO'] if quick else ['FamSimV', 'FamSimW', 'FamSimM', 'FamSimC', 'FamSimVO', 'FamSimWO']
+    nsim = 100 if quick else 6000
     mutants = ['trace-noshift'] if quick else sorted(SPEC_MUTANTS)
     tmo = 500 if quick else 2400
     jobs = {
@@ -164,7 +164,8 @@ def replay_phase(rep, tables, byfam, sim):
         st = status[c19_ns.text(c), c['ok']]
         if o.kind == 'skip':
             st[3] += 1
-            rep.skip('{}: outside the model ({})'.format(eng, 'integer ** negative integer' if c['ok'] == 'skip' else 'undefined value'))
+            if eng != 'v2parser':
+                rep.skip('{}: outside the model ({})'.format(eng, 'integer ** negative integer' if c['ok'] == 'skip' else 'undefined value'))
             return
         st[2] += 1
         if o.kind == 'violation':
@@ -203,6 +204,8 @@ def replay_phase(rep, tables, byfam, sim):
                 if o is not None:
                     record(c, name, eng, o)
                 pending.extend((p, name) for p in pend)
+            if c['ok'] == 'ok' and c['st'] == 0:
+                record(c, name, 'v2parser', R.v2_parser(c))
             if len(pending) >= 40:
                 flush()
     flush()
